@@ -66,7 +66,7 @@ func c12Parse(b []byte) (sender int, id uint64, epoch byte, ok bool) {
 	return int(b[4]), binary.BigEndian.Uint64(b[8:]), b[5], true
 }
 
-func c12Case(r *ev.Run, sf stackFactory, g *rng.R, caseID string, G int, replyInCallback bool) {
+func c12Case(r *ev.Run, sf stackFactory, g *rng.R, caseID string, G int, replyInCallback bool, outAsk bool) {
 	base := libGoroutines()
 	st, err := sf.Build(stackOptsFor(sf.Name, g))
 	if err != nil {
@@ -80,7 +80,7 @@ func c12Case(r *ev.Run, sf stackFactory, g *rng.R, caseID string, G int, replyIn
 		if d == nil {
 			d = map[string]any{}
 		}
-		d["stack"], d["blocked_receivers"], d["reply_in_callback"] = name, G, replyInCallback
+		d["stack"], d["blocked_receivers"], d["reply_in_callback"], d["own_ask_in_flight"] = name, G, replyInCallback, outAsk
 		r.Violate("C12/"+sig+"/"+name, caseID, desc, d)
 	}
 	var closeReturned atomic.Bool
@@ -196,6 +196,67 @@ func c12Case(r *ev.Run, sf stackFactory, g *rng.R, caseID string, G int, replyIn
 			}()
 		}
 	}
+	// optionally the target itself has an Ask outstanding (its peer's handler has started and is held) when Close is called
+	held, release := make(chan struct{}), make(chan struct{})
+	var heldOnce, releaseOnce sync.Once
+	actx, acancel := context.WithCancel(bg)
+	var awg sync.WaitGroup
+	outAsk = outAsk && st.HasAsk && len(st.Nodes) > 1
+	if outAsk {
+		for k := 0; k < 2; k++ {
+			pwg.Add(1)
+			go func() {
+				defer pwg.Done()
+				for {
+					err := st.Nodes[1].ServeAsk(pctx, func(hctx context.Context, resp []byte, m Msg) int {
+						if len(m.Payload) >= 4 && string(m.Payload[:4]) == "HOLD" {
+							heldOnce.Do(func() { close(held) })
+							select {
+							case <-release:
+							case <-hctx.Done():
+							}
+						}
+						return 0
+					})
+					if err != nil {
+						return
+					}
+				}
+			}()
+		}
+		awg.Add(1)
+		go func() {
+			defer awg.Done()
+			resp := make([]byte, 8)
+			for try := 0; try < 20 && actx.Err() == nil; try++ {
+				target.Ask(actx, resp, 1, p2p.IOVec{[]byte("HOLD-C12-outgoing-ask-in-flight")})
+				select {
+				case <-held:
+					return
+				default:
+					time.Sleep(10 * time.Millisecond)
+				}
+			}
+		}()
+		select {
+		case <-held:
+			r.Count("closes_with_own_ask_in_flight", 1)
+		case <-time.After(5 * time.Second):
+			outAsk = false
+			r.Count("own_ask_never_reached_handler", 1)
+		}
+	}
+	releaseAsk := func() {
+		releaseOnce.Do(func() { close(release) })
+		acancel()
+		done := make(chan struct{})
+		go func() { awg.Wait(); close(done) }()
+		select {
+		case <-done:
+		case <-time.After(5 * time.Second):
+			r.Count("own_ask_left_behind", 1) // whether an outstanding Ask returns is C11's business
+		}
+	}
 	// warm up: some deliveries (handshakes done)
 	for i := 0; i < 3000 && delivered.Load() < 5 && (G > 0 || told.Load() < 50); i++ {
 		time.Sleep(time.Millisecond)
@@ -219,6 +280,7 @@ func c12Case(r *ev.Run, sf stackFactory, g *rng.R, caseID string, G int, replyIn
 		})
 	}()
 	teardown := func() {
+		releaseAsk()
 		pcancel()
 		done := make(chan struct{})
 		go func() {
@@ -373,11 +435,11 @@ func c12Case(r *ev.Run, sf stackFactory, g *rng.R, caseID string, G int, replyIn
 		if overlap.Load() {
 			cls = "overlapping-traffic"
 		}
-		r.NonTrivial(fmt.Sprintf("%s/G=%d/reply=%v/%s", name, G, replyInCallback, cls))
+		r.NonTrivial(fmt.Sprintf("%s/G=%d/reply=%v/ownask=%v/%s", name, G, replyInCallback, outAsk, cls))
 	}
 	r.Count("delivered_before_close", warm)
 	r.Count("told", told.Load())
-	r.Sample(map[string]any{"case": caseID, "stack": name, "blocked_receivers": G, "reply_in_callback": replyInCallback, "delivered_before_close": warm, "told_by_peers": told.Load(), "traffic_overlapped_close": overlap.Load()})
+	r.Sample(map[string]any{"case": caseID, "stack": name, "blocked_receivers": G, "reply_in_callback": replyInCallback, "own_ask_in_flight": outAsk, "delivered_before_close": warm, "told_by_peers": told.Load(), "traffic_overlapped_close": overlap.Load()})
 }
 
 func trimStacks(s string, n int) string {
@@ -389,7 +451,7 @@ func trimStacks(s string, n int) string {
 }
 
 func runC12(r *ev.Run) {
-	r.Rule = "per stack: G in {1,4,16} goroutines blocked in Receive (and ServeAsk) with non-expiring contexts on one node while two peers tell/ask it continuously, optionally replying from inside the callbacks; Close at a seeded moment (seeded delays at hub/queue hook points); monitors: Close itself, the blocked calls, a second Close and 50 further calls must not stay parked (two goroutine snapshots 1 s apart) and must not report success; messages created after Close returned (epoch flag set by the harness after Close returned) must never reach a callback; after closing every swarm of the stack no goroutine started by them may remain. non-trivial = deliveries were flowing when Close was called; distinct = (stack, G, reply-in-callback, traffic overlap)"
+	r.Rule = "per stack: G in {1,4,16} goroutines blocked in Receive (and ServeAsk) with non-expiring contexts on one node while two peers tell/ask it continuously, optionally replying from inside the callbacks, optionally with an Ask of its own outstanding (the peer's handler has started and is held); Close at a seeded moment (seeded delays at hub/queue hook points); monitors: Close itself, the blocked calls, a second Close and 50 further calls must not stay parked (two goroutine snapshots 1 s apart) and must not report success; messages created after Close returned (epoch flag set by the harness after Close returned) must never reach a callback; after closing every swarm of the stack no goroutine started by them may remain. non-trivial = deliveries were flowing when Close was called; distinct = (stack, G, reply-in-callback, traffic overlap)"
 	g := rng.New(r.Seed, "C12", fmt.Sprint(r.Batch))
 	idx := 0
 	for _, sf := range allStacks() {
@@ -410,7 +472,7 @@ func runC12(r *ev.Run) {
 						continue
 					}
 					armHooks(cg, []uint16{verifhook.TellHubReceiveEnter, verifhook.TellHubReceiveBlock, verifhook.TellHubDeliver, verifhook.AskHubServe, verifhook.AskHubDeliver, verifhook.QueueDeliverMid, verifhook.QueueReceiveAfterFn})
-					c12Case(r, sf, cg, caseID, G, reply)
+					c12Case(r, sf, cg, caseID, G, reply, cg.Chance(1, 2))
 					verifhook.DisarmAll()
 				}
 			}
